@@ -17,6 +17,12 @@ def const_of(src, name):
     return v.value if isinstance(v, ast.Constant) and isinstance(v.value, int) else None
 
 
+def roles_ready(env, F, b, A, T):
+    q1 = F.fdiv(b, A)
+    want = [b - q1.scale(A), F.fdiv(q1, T * T), q1 - F.fdiv(q1, T * T).scale(T * T)]
+    return all(any(v == w for v in env.values()) for w in want)
+
+
 def run(chk):
     src = chk.src
     fn = src.func(CAT, Q)
@@ -94,6 +100,18 @@ def run(chk):
         break
     if k0 is None:
         raise AnalysisError('_unpack_euler16: no non-integer statement found')
+    # an integer of the decomposition that is overwritten by something that is not integer arithmetic (np.where, a mask,
+    # a clip) changes which code is decoded for some inputs
+    for s_ in fn.body[k0:]:
+        if isinstance(s_, ast.Assign) and len(s_.targets) == 1 and isinstance(s_.targets[0], ast.Name) and s_.targets[0].id in env \
+                and any(isinstance(x, ast.Name) and x.id in env for x in ast.walk(s_.value)) and not roles_ready(env, F, b, A, T):
+            chk.refuted('C18-R1', CAT, Q, 'the packed code is decoded as it is',
+                        f'{unparse(s_)[:80]}: {s_.targets[0].id} (= {env[s_.targets[0].id]}) is replaced by a value that is not integer arithmetic on the code '
+                        'before the decomposition is complete: the codes for which this changes the value decode to another code\'s triad (or to none)', node=s_)
+            return
+        if not (isinstance(s_, ast.Assign) and len(s_.targets) == 1 and isinstance(s_.targets[0], ast.Name) and s_.targets[0].id not in env
+                and isinstance(s_.value, (ast.Compare, ast.BoolOp))):
+            break
     q1 = F.fdiv(b, A)
     want = {'iaz': b - q1.scale(A), 'cap': F.fdiv(q1, T * T), 'cell': q1 - F.fdiv(q1, T * T).scale(T * T)}
     roles = {}
